@@ -75,6 +75,10 @@ func (e *Engine) initIntrinsics() {
 		v := p.ndInt("f64", 64)
 		return p.tt.FPFromBits(v)
 	}
+	in["vrt.Observe"] = func(p *Path, fn *ssa.Function, args []Value) Value {
+		p.obs = append(p.obs, args[0].(*Term))
+		return nil
+	}
 	in["vrt.IsSymbolic"] = func(p *Path, fn *ssa.Function, args []Value) Value { return p.tt.True() }
 	in["vrt.Assume"] = func(p *Path, fn *ssa.Function, args []Value) Value {
 		c := args[0].(*Term)
